@@ -210,6 +210,9 @@ func runC12(c *Ctx) error {
 		for i := 0; i < n; i++ {
 			for _, kind := range []string{"key", "hash", "hashg"} {
 				mt := c12clone(t)
+				if i%2 == 0 {
+					_ = mt.IsValid(nil) // validated while intact: the verdict after the change must not be a remembered one
+				}
 				arg := ""
 				old := t.Node(uint64(i))
 				switch kind {
